@@ -1,6 +1,6 @@
 PART = {
   "C07": dict(
-    imports=["Carquet.Properties.C07.Par"],
+    imports=["Carquet.Properties.C07.Par", "Carquet.Properties.C07.ParDict", "Carquet.Properties.C07.ParCold"],
     obligations=[
       "Carquet.Properties.C07.C07_private_commute",
       "Carquet.Properties.C07.C07_mmap_schedule_independent",
@@ -16,16 +16,46 @@ PART = {
       "Carquet.Properties.C07.C07_tableInitialiser_discipline",
       "Carquet.Properties.C07.C07_crc_init_discipline",
       "Carquet.Properties.C07.C07_cpu_info_memset_not_idempotent",
+      # dictionary-encoded chunks, header windows, section structure of traces (Properties/C07/ParDict.lean)
+      "Carquet.Properties.C07.C07_fread_reads_schedule_independent",
+      "Carquet.Properties.C07.C07_fread_dict_chunks_schedule_independent",
+      "Carquet.Properties.C07.C07_chunkFreadD_shape",
+      "Carquet.Properties.C07.C07_mmap_dict_chunks_schedule_independent",
+      "Carquet.Properties.C07.C07_dict_modes_agree",
+      "Carquet.Properties.C07.C07_dict_body_split_violates_footprint",
+      "Carquet.Properties.C07.C07_adaptive_chunk_readers",
+      "Carquet.Properties.C07.C07_trace_is_atomic_section_schedule",
+      # cold-start batch read = sequential read, as one theorem (Properties/C07/ParCold.lean)
+      "Carquet.Properties.C07.C07_fread_atomic_schedule",
+      "Carquet.Properties.C07.C07_mixed_schedule_bytes",
+      "Carquet.Properties.C07.C07_cold_start_batch_read",
+      "Carquet.Properties.C07.C07_cold_start_columns",
+      "Carquet.Properties.C07.C07_cold_unguarded_use_counterexample",
     ],
-    components=["par", "parnull"],
-    fidelity={"Impl.Par": "structural"},
+    components=["par", "parnull", "pardict", "partsan"],
+    pregen={"pardict": "pardict"},
+    fidelity={"Impl.Par": "structural", "Impl.ParDict": "structural"},
     rule="par: per codec (UNCOMPRESSED, SNAPPY, ZSTD) one file written by the real writer (8 REQUIRED columns "
          "INT32/INT64/FLOAT/DOUBLE/FLBA16/BOOLEAN/BYTE_ARRAY/INT32, 24576 rows quick / 61440 thorough, 8192-row row groups, "
          "1024-row pages), read by carquet_batch_reader for num_threads in {1,2,4,8,16} x {fread,mmap,buffer} under a seeded "
          "schedule of yields/sleeps injected at every fseek/fread and lazy-init site; N independent handles (3..8 pthreads) on "
          "the same file; cold-start races in a fresh fork+exec'ed process (8 handles at once, one 8/16-thread batch reader, "
          "8/16 threads calling carquet_crc32 / carquet_get_cpu_info / dispatch kernels at once); distinct = distinct "
-         "(op, file seed, codec, mode, threads, batch size, schedule seed)",
+         "(op, file seed, codec, mode, threads, batch size, schedule seed) || "
+         "pardict: dictionary-encoded files from the Lean reference writer (driver --gen pardict: Spec.File.writeFull; 5 files "
+         "quick / 20 thorough; 6..10 INT32/INT64/BYTE_ARRAY columns, some OPTIONAL; 8..16 row groups of 24..63 rows; in every "
+         "chunk a dictionary page (3/4 with dictionary_page_offset, 1/4 found by probing) + 1..3 data pages, RLE_DICTIONARY / "
+         "PLAIN_DICTIONARY, some chunks ending in PLAIN fallback pages; codecs UNCOMPRESSED / SNAPPY / LZ4_RAW; 17..27 KB), each "
+         "read by carquet_batch_reader for num_threads {1,2,4,8,16} x {fread,mmap,buffer} x batch sizes {7,16,64,1000} and by 3..8 "
+         "independent handles on pthreads; every line repeats its configuration (8 times for fread with >= 2 threads on a "
+         "compressed file, 24 thorough) under schedules injected at the I/O yield points AND at the boundaries of the critical "
+         "sections (interposed GOMP_critical_name_start/_end: record + yield after leaving a section); compared with the "
+         "single-threaded reading, with the digests of the TABLE (generator) and with the table the Spec reader reads from "
+         "the bytes; the section boundaries in the trace are checked against the model's footprint (every stdio access inside "
+         "a section, sections never overlap, every section = [seek; read]); #stat distinct_interleavings_on_shared_stream "
+         "(165 quick, 1844 thorough) || "
+         "partsan (thorough tier): the components par + pardict built with clang-14 -fsanitize=thread + libomp + Archer and run "
+         "at the same seed/tier; no ThreadSanitizer report outside the lazily initialised tables, all predicates true",
     assumptions=[
       "the theorems quantify over ALL interleavings of the MODEL Impl.Par (any number of workers, any action lists); that the "
       "model's shared footprint is complete (no other state shared between the OpenMP workers, every seek/read of the fread "
@@ -43,17 +73,28 @@ PART = {
       "this for the repaired fread mode (next action = function of the bytes obtained so far)",
       "an initialiser's stored value is a model constant; in crc32_init_tables it is computed from cells the same thread "
       "stored earlier, which hold their final values by C07_lazy_init_idempotent (third conjunct)",
+      "cold-start theorem: a schedule is a sequence of turns, one model action per turn; the result of a worker is the bytes it "
+      "obtained and the (flag, table) pairs its CRC computations looked up -- that the real private computation (header parse, "
+      "CRC value, decompression) depends on nothing else is assumption 3 above; fairness (enough turns for the worker in "
+      "question) is the only hypothesis on the schedule",
+      "header windows (read_page_header_fread) and the probe of a dictionary page without dictionary_page_offset are modelled "
+      "as given numbers of extra reads (PageLoc.k, ChunkLoc.probed); C07_adaptive_chunk_readers covers offsets computed from "
+      "the bytes read, with an arbitrary header parser",
       "valid files only (C07's hypothesis): with a decode error the shared `read_error` flag makes the set of columns that "
       "consumed rows schedule-dependent",
     ],
     trusted_base=["libgomp, glibc stdio stream locking, pthreads", "hook CARQUET_VERIF (fixes/HOOK-io-events.patch): the "
-                  "recorded order of events on one FILE* is the order of the calls (event + call under flockfile)"],
+                  "recorded order of events on one FILE* is the order of the calls (event + call under flockfile)",
+                  "harness/ops_pardict.c interposes GOMP_critical_name_start/_end (forwarding to libgomp's): section events are "
+                  "recorded while the lock is held, so their order is the order of the sections; the mutual exclusion itself is "
+                  "observed on every trace (crit_schedule), not assumed",
+                  "thorough tier: clang-14, LLVM libomp, Archer (OMPT tool), ThreadSanitizer"],
     timeout=1800,
   ),
 }
 
 # what the check delivers, in the component builder's words
 PART['C07'].update(
-    text="(partial by nature) Lean: for any number of workers and any action lists, every interleaving of the MODEL gives each worker the sequential result when actions are shared-read-only (mmap/buffer), when every seek+read pair on the shared FILE* is an atomic section (fread after fix F21), or when each reader has its own stream (N independent handles); kernel-checked counterexample for the pinned unsynchronised fread path (F21); lazy-init invariant (cells only ever hold acceptable values, flag set => table complete) for any schedule under program-order visibility. Observed, not proved: digests for num_threads 1..16 x 3 modes x 3 codecs under forced schedules equal the single-threaded ones; hook traces match the model's footprint; cold-start races in fresh processes",
-    level_note='Lean kernel; hand-written structural model; hook traces + forced schedules; TSan run documented in NOTES_par.md',
+    text="(partial by nature) Lean: for any number of workers and any action lists, every interleaving of the MODEL gives each worker the sequential result when actions are shared-read-only (mmap/buffer), when every seek+read pair on the shared FILE* is an atomic section (fread after fix F21), or when each reader has its own stream (N independent handles); kernel-checked counterexample for the pinned unsynchronised fread path (F21); lazy-init invariant (cells only ever hold acceptable values, flag set => table complete) for any schedule under program-order visibility. Observed, not proved: digests for num_threads 1..16 x 3 modes x 3 codecs under forced schedules equal the single-threaded ones; hook traces match the model's footprint; cold-start races in fresh processes. Dictionary-encoded chunks (files from the Lean reference writer, never produced by carquet's writer): model of the dictionary page load / header window retries / probed dictionary as file_read_at sections with the same schedule-independence theorems, fread = mmap; kernel-checked: splitting the dictionary body read into a seek section and a read section (seeded change C07b-2) violates the footprint condition and loses bytes under a concrete interleaving; a recorded trace that passes the section check IS the flattening of a schedule of atomic sections (C07_trace_is_atomic_section_schedule). ONE theorem for the cold start (C07_cold_start_batch_read, from C07_fread_atomic_sections + C07_lazy_init_idempotent + independence of stdio sections and table steps): under every fair schedule a worker's bytes and the table every one of its CRC computations uses are those of the sequential run. Thorough tier: ThreadSanitizer (clang + Archer) on par + pardict, no report outside the lazily initialised tables",
+    level_note='Lean kernel; hand-written structural model; hook traces (I/O + critical-section boundaries) + forced schedules; ThreadSanitizer (clang/Archer) as a thorough-tier step',
     technique='Lean 4 non-interference proof over all interleavings of an action model + trace/digest correspondence to the C code')
